@@ -2,6 +2,7 @@ package pbar
 
 import (
 	"io"
+	"sync"
 
 	"github.com/vbauerster/mpb/v8"
 	"github.com/vbauerster/mpb/v8/decor"
@@ -13,6 +14,7 @@ const (
 )
 
 type Container struct {
+	mu    sync.Mutex
 	p     *mpb.Progress
 	out   io.Writer
 	quiet bool
@@ -27,6 +29,8 @@ func NewContainer(out io.Writer, quiet bool) *Container {
 }
 
 func (c *Container) ensureProgress() {
+	c.mu.Lock()
+	defer c.mu.Unlock()
 	if c.p == nil {
 		c.p = mpb.New(mpb.WithOutput(c.out))
 	}
